@@ -1743,6 +1743,10 @@ func genC15(g *G, sc *Scenario, tier string) {
 		{`"deleted":true`, `"deleted":"true"`}, {`"refs":{`, `"refs":{"zz:bad":5,`}, {`"id":"ns`, `"id":7,"x":"ns`}, {`"props":{`, `"props":[`},
 		{`"recorded":`, `"recorded":"x`}, {`"namespaces":{`, `"namespaces":[{`}, {`{"id":"@continuation"`, `{"id":12`},
 	}
+	publicNS, usedT := g.P(0.3), false
+	if publicNS {
+		sc.Knobs["publicNS"] = 1
+	}
 	for rd := g.Range(1, 3); rd > 0; rd-- {
 		for k := g.Range(1, 3); k > 0; k-- {
 			ents := g.batch(c, m, "src")
@@ -1778,6 +1782,23 @@ func genC15(g *G, sc *Scenario, tier string) {
 			sc.Ops = append(sc.Ops, op)
 			if len(faults) > 0 {
 				sc.Ops = append(sc.Ops, Op{K: kind}) // a clean transfer afterwards catches up
+			}
+		}
+		if publicNS && !usedT && g.P(0.7) {
+			// the dataset lists a public namespace nobody has used yet; its first use is an update of an entity that
+			// exists already (no new entity in the batch), read back through a clean pull
+			d := m.DS["src"]
+			for _, id := range sortedKeys(d.Latest) {
+				cur := d.LatestOf(id)
+				if cur == nil || cur.Deleted {
+					continue
+				}
+				e := specFromCanon(cur)
+				e["props"].(map[string]any)[ExT+"k"] = "first-use"
+				m.Batch("src", []Ent{e})
+				sc.Ops = append(sc.Ops, Op{K: "payload", Ents: []Ent{e}, N: g.Intn(6)}, Op{K: "pull"})
+				usedT = true
+				break
 			}
 		}
 		if g.P(0.5) {
